@@ -1,6 +1,91 @@
-import MotoModel.Model.Tape
-import MotoModel.Spec.K7
+/-
+  C03 — created tapes conform to the MO5 .k7 format.
+  `Spec.K7` is the format description; the model is `Tape.inject` (Model/Tape.lean).
+-/
+import MotoModel.Proofs.TapeFormat
 namespace Moto.C03
 open Moto Moto.Tape
-theorem placeholder : buildEmpty 255 = [255, 2, 0] := rfl
+
+/-- constants of the code (regenerated on every run) are those of the format -/
+theorem marker_is_sync : Gen.Tape.writeMarker = Spec.K7.sync := by decide
+theorem tape_size : Gen.Tape.tapeSize = Spec.K7.tapeLength := rfl
+theorem blank_is_zero : Gen.Tape.blankByte = 0 ∧ Gen.Tape.blankUniform = true := ⟨rfl, rfl⟩
+theorem block_types : Gen.Tape.typeLeader = 0 ∧ Gen.Tape.typeData = 1 ∧ Gen.Tape.typeEof = 255 := ⟨rfl, rfl, rfl⟩
+
+/-- the file the format must hold for one source, as the tool understands the source -/
+def specFile (w : World) (s : Str) : Spec.K7.SFile :=
+  let d := (classify s).1
+  ⟨upper d.name, upper d.ext, d.kind % 256, d.mode % 65536, contentOf w s⟩
+
+/-- **C03 (frame laws)** length byte and checksum of every frame -/
+theorem frame_length_byte (ty : Nat) (p : Bytes) : (Spec.K7.frame ty p)[1]? = some ((p.length + 2) % 256) := rfl
+
+theorem frame_checksum (p : Bytes) : (p.sum + Spec.K7.cks p) % 256 = 0 := by
+  unfold Spec.K7.cks; omega
+
+/-- **C03 (chunking)** data payloads are 1..254 bytes and concatenate to the content -/
+theorem chunks_bounds (content : Bytes) : ∀ c ∈ Spec.K7.chunks254 content, 1 ≤ c.length ∧ c.length ≤ 254 :=
+  chunksFuel_bounds 253 _ content
+
+theorem chunks_concat (content : Bytes) : (Spec.K7.chunks254 content).flatten = content :=
+  chunksFuel_flatten 253 _ content (Nat.le_refl _)
+
+/-- **C03 (leader fields)** 8 and 3 bytes whatever the lengths of name and extension -/
+theorem leader_fields (f : Spec.K7.SFile) :
+    (Spec.K7.pad 8 f.name).length = 8 ∧ (Spec.K7.pad 3 f.ext).length = 3 ∧ (Spec.K7.leaderPayload f).length = 14 := by
+  simp [Spec.K7.leaderPayload, Spec.K7.pad]
+
+/-- **C03 (kind/mode table)**: BAS → 0/0000, BAS,a → 0/FFFF, CSV → 1/0000, other → 2/0000,
+    decided on the upper-cased extension of the base name -/
+theorem kind_mode_table (src : Str) (dp : Nat) (h : rfindFrom 46 src (afterLast 47 src) = some dp) :
+    ((classify src).1.kind, (classify src).1.mode) = Spec.K7.kindMode (upper (src.drop (dp + 1))) := by
+  unfold classify
+  simp only [h]
+  unfold Spec.K7.kindMode
+  have e1 : str "BAS,A" = [66, 65, 83, 44, 65] := by decide
+  have e2 : str "BAS" = [66, 65, 83] := by decide
+  have e3 : str "CSV" = [67, 83, 86] := by decide
+  simp only [e1, e2, e3]
+  by_cases h1 : upper (src.drop (dp + 1)) = [66, 65, 83, 44, 65]
+  · simp [h1]
+  · by_cases h2 : upper (src.drop (dp + 1)) = [66, 65, 83]
+    · simp [h2]
+    · by_cases h3 : upper (src.drop (dp + 1)) = [67, 83, 86]
+      · simp [h3]
+      · simp [h1, h2, h3]
+
+theorem kind_mode_no_extension (src : Str) (h : rfindFrom 46 src (afterLast 47 src) = none) :
+    (classify src).1.kind = 2 ∧ (classify src).1.mode = 0 ∧ (classify src).1.ext = [] := by
+  unfold classify; simp [h]
+
+theorem allRaw_eq_frames (w : World) (srcs : List Str) :
+    allRaw w srcs = ((srcs.map (specFile w)).flatMap Spec.K7.fileBlocks).map (fun b => Spec.K7.frame b.1 b.2) := by
+  induction srcs with
+  | nil => rfl
+  | cons s rest ih =>
+    simp only [allRaw, List.flatMap_cons, List.map_cons, List.map_append] at ih ⊢
+    rw [ih]
+    congr 1
+    exact fileRaw_eq_frames _ _
+
+/-- **C03 (shape)**: whenever create writes an archive, the archive is exactly the format's
+    encoding of the sources — blocks back to back from offset 0, each sixteen 01, 3C 5A, frame —
+    followed by zero padding, 21504 bytes in all. -/
+theorem created_tape_is_k7 (w : World) (verbose : Bool) (archive : Str) (srcs : List Str)
+    (hr : AllReadable w srcs) (hfit : totalLen (allRaw w srcs) < Gen.Tape.tapeSize) :
+    (inject w verbose archive srcs).writes = [(archive, Spec.K7.tape (srcs.map (specFile w)))]
+      ∧ (Spec.K7.tape (srcs.map (specFile w))).length = 21504 := by
+  obtain ⟨t', e, hw⟩ := injectLoop_ok w srcs blank { verbose := verbose } [] [] hr written_blank (by simpa using hfit)
+  have hbuf : t'.buf = Spec.K7.tape (srcs.map (specFile w)) := by
+    rw [hw.buf]
+    simp only [List.nil_append, Spec.K7.tape, Spec.K7.encode]
+    rw [allRaw_eq_frames, laidOut_eq_encode _ marker_is_sync]
+    rfl
+  constructor
+  · simp only [inject, e, hbuf]
+  · rw [← hbuf, hw.buf_length]; rfl
+
+/-- non-vacuity: a two-file list fits -/
+example : totalLen (allRaw (fun _ => some [1, 2, 3]) [[97], [98, 46, 98, 97, 115]]) < Gen.Tape.tapeSize := by decide
+
 end Moto.C03
